@@ -1,19 +1,22 @@
 #!/bin/bash
 # seed_run.sh <name> <tier> <Cxx> [<Cxx> ...]
-# Applies /verif/seeded/<name>/patch.diff to /repo's working tree, runs the given checks,
-# and undoes the change straight afterwards. Prints one line per check:
+# Applies seeded/<name>/patch.diff to the repository's working tree (/repo, or $VERIF_REPO when the
+# tooling itself runs from a snapshot), runs the given checks, and undoes the change straight
+# afterwards. Prints one line per check:
 #   <name> <check> <tier> exit=<code> violations=<n>
 # Evidence files are restored afterwards (evidence committed must come from the unchanged tree).
 set -u
+ROOT="$(cd "$(dirname "$0")/.." && pwd)"
+REPO="${VERIF_REPO:-/repo}"
 name="$1"; tier="$2"; shift 2
-p=/verif/seeded/$name/patch.diff
-cd /verif
-[ -z "$(git -C /repo status --porcelain)" ] || { echo "/repo not clean"; exit 2; }
-git -C /repo apply "$p" || { echo "patch does not apply"; exit 2; }
-trap 'git -C /repo checkout -- . ; git -C /verif checkout -- evidence 2>/dev/null' EXIT
-mkdir -p /verif/seeded/$name/runs
+p=$ROOT/seeded/$name/patch.diff
+cd "$ROOT"
+git -C "$REPO" apply --check "$p" 2>/dev/null || { echo "$name: patch does not apply (repository not clean, or the code moved)"; exit 2; }
+git -C "$REPO" apply "$p" || exit 2
+trap 'git -C "$REPO" apply -R "$p"; git -C "$ROOT" checkout -- evidence 2>/dev/null' EXIT
+mkdir -p "$ROOT/seeded/$name/runs"
 for c in "$@"; do
-  log=/verif/seeded/$name/runs/$c.$tier.log
+  log=$ROOT/seeded/$name/runs/$c.$tier.log
   ./check "$c" "$tier" > "$log" 2>&1
   code=$?
   n=$(grep -c "^VIOLATION" "$log")
